@@ -5,6 +5,11 @@ import math
 from .ast import is_str
 
 
+# hypotheses under which a known library defect is emulated on the source side (used only for diagnosis:
+# "is the whole divergence explained by exactly this defect?")
+HYPOTHESIS = set()
+
+
 class CBError(Exception):
     def __init__(self, code, msg=""):
         Exception.__init__(self, "?%s ERROR %s" % (code, msg))
@@ -328,6 +333,9 @@ class CBMachine(object):
             return r
         if name == "STR$":
             r = fmt_num(num(0))
+            if "STR$-trailing-blank" in HYPOTHESIS:
+                # ecb_str: " " + BASIC09's spelling + " "  (a trailing blank always, an extra leading one for negatives)
+                r = (" " if num(0) < 0 else "") + r + " "
             self.events.append(("call", "STR$", (num(0),), r))
             return r
         if name == "HEX$":
